@@ -231,6 +231,9 @@ int main(int argc, char** argv)
     std::string prog = argv[3];
     int size = std::atoi(argv[4]);
     g_tasks = new std::vector<tinfo>(200000);
+    // coroutine layer sites co.enter / co.yield / co.resume / co.return (model `schedco`; the base
+    // model `sched` skips them)
+    e2::g_wanted_extra = +[](char const* s) { return s[0] == 'c' && s[1] == 'o' && s[2] == '.'; };
     e2::install(seed, perturb);
 
     std::vector<char const*> av{argv[0]};
